@@ -68,7 +68,8 @@ def menu(basename):
               ["set", "trafo3w", 0, "pfe_kw", 0.], ["set", "trafo3w", 0, "vkr_mv_percent", 0.], ["set", "trafo3w", 0, "sn_lv_mva", 25.],
               ["set", "trafo3w", 0, "vn_mv_kv", 21.], ["set", "trafo3w", 0, "vk_lv_percent", 20.],
               ["set", "switch", 0, "closed", False], ["switch", 0, 0, "t3", False, 0.], ["switch", 2, 0, "t3", False, 0.], ["sn", 100.],
-              ["shunt", 2, 0.05, 0.3, 2, 0.9, True], ["ward", 1, True]]
+              ["shunt", 2, 0.05, 0.3, 2, 0.9, True], ["ward", 1, True],
+              ["load", 2, 8.0, 2.0, "P", 1., True]]       # makes the lv winding the most loaded one
     return m
 
 
@@ -216,6 +217,14 @@ def gen_cases(tier):
         m = menu(b)
         for devs in na.subsets(m, 2):
             cases.append({"base": b, "devs": [list(d) for d in devs], "optsets": optsets})
+        if b in ("T3", "W3"):
+            el = "trafo" if b == "T3" else "trafo3w"
+            pre = ["set", el, 0, "tap_pos", 1]
+            tapmenu = [d for d in m if d[0] == "set" and d[1] == el and d[3] in ("tap_side", "tap_changer_type", "tap_step_degree", "tap_step_percent",
+                                                                                  "shift_degree", "shift_mv_degree", "shift_lv_degree", "tap_neutral")]
+            for devs in na.subsets(tapmenu, 2):
+                if devs:
+                    cases.append({"base": b, "devs": [pre] + [list(d) for d in devs], "optsets": ["t", "noangles", "dc"]})
         if tier == "thorough" and b in ("T3", "W3"):
             for devs in na.subsets(m, 3):
                 if len(devs) == 3:
